@@ -85,7 +85,7 @@ func c03Lengths(quick bool) []int {
 
 func c03Alphabet(quick bool) map[string]interface{} {
 	return map[string]interface{}{
-		"secrets":      "empty, 'a', 'fooman', 16x00, 63/64/65-byte, all 256 octet values",
+		"secrets":      "empty, 'a', 'fooman', 16x00, 63/64/65-byte, all 256 octet values; plus a sweep of every secret length 0..160 and 255,256,257,1000,4096 on a reduced plane (2 versions x 8 body lengths x 4 sequence numbers)",
 		"sessions":     c03Sessions,
 		"versions":     []string{"c0", "c1"},
 		"seq":          tierPick(quick, "server direction {1,3,127,253,255}, client direction {1,2,3,127,128,254,255}", "server direction every odd 1..255, client direction every 1..255"),
@@ -149,7 +149,48 @@ func newC03Server(key []byte) (*c03Srv, error) {
 	return s, err
 }
 
+// c03SecretSweep: every secret length 0..160 and a few long ones, on a reduced plane of the other dimensions.
+func c03SecretSweep(c *Ctx) {
+	lens := []int{}
+	for n := 0; n <= 160; n++ {
+		lens = append(lens, n)
+	}
+	lens = append(lens, 255, 256, 257, 1000, 4096)
+	for i, n := range lens {
+		if !c.Mine(i) {
+			continue
+		}
+		key := make([]byte, n)
+		for j := range key {
+			key[j] = byte(0x21 + (j*11+n)%90)
+		}
+		srv, err := newC03Server(key)
+		if err != nil {
+			c.Abort("hang", err.Error(), nil)
+		}
+		for _, ver := range []byte{0xc0, 0xc1} {
+			for _, bn := range []int{0, 1, 16, 17, 32, 33, 100, 1000} {
+				for _, seq := range []int{1, 255} {
+					cs := c03Case{Secret: fmt.Sprintf("%x", key), Session: 0x01020304, Version: ver, Seq: byte(seq), N: bn}
+					if srv.conn.Closed() {
+						srv.w.Stop()
+						if srv, err = newC03Server(key); err != nil {
+							c.Abort("hang", err.Error(), cs)
+						}
+					}
+					c03Server(c, srv, key, cs)
+				}
+				for _, seq := range []int{2, 254} {
+					c03Client(c, key, c03Case{Secret: fmt.Sprintf("%x", key), Session: 0x80000001, Version: ver, Seq: byte(seq), N: bn})
+				}
+			}
+		}
+		srv.w.Stop()
+	}
+}
+
 func c03Run(c *Ctx) {
+	c03SecretSweep(c)
 	secrets := c03Secrets()
 	versions := []byte{0xc0, 0xc1}
 	flags := []byte{0, 1, 4, 5, 0xfe, 0xff}
